@@ -51,7 +51,11 @@ on a receiver it cannot type whose NAME is the name of any crate function that m
 hand-listed); a lock/condvar/spawn/join primitive or a guard constructor call in a function outside the
 tracked impl blocks; a lock site not covered by a footprint; `else if`, control flow in expression position,
 `return` in a loop, `?` next to lock events, a guard assigned to a variable or released in only one
-non-leaving alternative, call cycles, unknown methods on tracked types. What stays TRUSTED: the typing tables
+non-leaving alternative, call cycles, unknown methods on tracked types. Implicit calls (audit 3, finding 6): the only Drop impls that are inlined are BarState's and Ticker's; every other impl, anywhere in
+the crate, of a trait that Rust invokes without a visible call (Drop, Deref, PartialEq/Ord, Display/Debug, Clone, From/Into,
+operators, Index, Default, Hash, AsRef/Borrow) must be found lock free by the crate-wide fixpoint, else exit 2.  Cargo.toml must
+say edition 2021 (the temporary-lifetime rules implemented here), else exit 2.  What stays TRUSTED: that Iterator/Read/Write/Future
+impls of the adaptor types (iter.rs, rayon.rs) are never driven from inside a tracked body; OnceLock::get_or_init is a leaf; the typing tables
 (FIELDS, PRIM, STD, RET_GUARD), the hand lists IGNORE_OK (11 name collisions), FIX_OK (3), the macro and
 std-path allow-lists, and that a method whose name differs from the name of every lock-taking function of the
 crate, called on a receiver the translator cannot type, takes no library lock.
@@ -177,10 +181,46 @@ def parse_file(path, fname):
     text = strip_cfg_test(strip_src(raw))
     text = re.sub(r"#!?\[[^\]\n]*\]", lambda m: " " * len(m.group(0)), text)    # remaining attributes
     fns = []
-    for m in re.finditer(r"(?m)^impl(?:<[^>{]*>)?\s+(?:([\w:]+)(?:<[^>{]*>)?\s+for\s+)?(\w+)(?:<[^>{]*>)?\s*\{", text):
-        trait, typ = m.group(1), m.group(2)
-        end = match_brace(text, m.end() - 1)
-        blk_lo, blk_hi = m.end(), end - 1
+    for m in re.finditer(r"(?m)^(?:unsafe\s+)?impl\b", text):
+        # header up to the `{` at angle depth 0 (generic parameters may nest: impl<T: Into<usize>> From<T> for X)
+        j, ang = m.end(), 0
+        while not (text[j] == "{" and ang == 0):
+            if text[j] == "<":
+                ang += 1
+            elif text[j] == ">" and text[j - 1] != "-":
+                ang -= 1
+            elif text[j] == ";" and ang == 0:
+                break
+            j += 1
+        if text[j] != "{":
+            continue
+        header = text[m.end():j]
+        hd, ang, k = "", 0, 0
+        while k < len(header):              # drop everything inside angle brackets
+            c = header[k]
+            if c == "<":
+                ang += 1
+            elif c == ">" and header[k - 1] != "-":
+                ang -= 1
+            elif ang == 0:
+                hd += c
+            k += 1
+        hd = re.sub(r"\bwhere\b.*", "", hd, flags=re.S)
+        parts = re.split(r"\bfor\b", hd)
+        tm = re.findall(r"[A-Za-z_]\w*", parts[-1])
+        if not tm:
+            die("%s:%d: cannot parse the impl header `impl%s`" % (fname, line_of(text, m.start()), header.strip()))
+        typ = tm[-1] if tm[0] in ("dyn",) else tm[0]
+        if tm[0] == "Box" and "dyn" in tm:
+            typ = tm[-1]
+        trait = None
+        if len(parts) == 2:
+            tr = re.findall(r"[A-Za-z_]\w*", parts[0])
+            if not tr:
+                die("%s:%d: cannot parse the impl header `impl%s`" % (fname, line_of(text, m.start()), header.strip()))
+            trait = tr[-1]
+        end = match_brace(text, j)
+        blk_lo, blk_hi = j + 1, end - 1
         i = blk_lo
         while True:
             fm = re.compile(r"((?:pub(?:\([a-z]+\))?\s+)?)fn\s+(\w+)").search(text, i, blk_hi)
@@ -1140,6 +1180,31 @@ def check_untracked(texts):
 
 UNTRACKED_OK = set()
 
+# trait methods that Rust calls IMPLICITLY (scope end, deref coercion, operators, formatting, conversions): the
+# scanner cannot see those call sites.  Modelled: Drop for BarState / Ticker (drop glue of the handle, of an
+# upgraded Arc, of an owned Ticker).  Every other impl of these traits anywhere in the crate must be found free
+# of lock effects (and of calls that may reach one) by the crate-wide fixpoint - then nothing has to be inlined
+# wherever such a value is dropped / dereferenced / compared / printed; otherwise the translator stops.
+IMPLICIT_TRAITS = {"drop", "deref", "derefmut", "partialeq", "eq", "partialord", "ord", "display", "debug", "clone",
+                   "from", "into", "tryfrom", "add", "sub", "mul", "div", "addassign", "subassign", "neg", "not",
+                   "index", "indexmut", "default", "hash", "asref", "asmut", "borrow"}
+# NOT in the list (declared as trusted): Iterator / Read / Write / Future impls of the adaptor types of iter.rs and
+# rayon.rs.  They are public entry points that call complete public methods one after the other (check_untracked),
+# and a tracked body never iterates / polls such a value (`for` loops of the four files iterate std collections).
+MODELLED_DROPS = {("BarState", "drop"), ("Ticker", "drop")}
+
+
+def check_implicit_impls():
+    for typ, trait, name, f, line in CRATE.get("trait_impls", []):
+        if trait not in IMPLICIT_TRAITS or (typ, trait) in MODELLED_DROPS:
+            continue
+        if typ in TRACKED_IMPLS and trait not in ("drop", "deref", "derefmut"):
+            continue        # scanned as a tracked method; only reachable through explicit calls the scanner resolves
+        if (typ, name) in CRATE["eff_keys"]:
+            die("%s:%d: `impl %s for %s` (`%s`) may take a lock; it runs implicitly (scope end / coercion / operator / "
+                "formatting) where the translator sees no call, and values of type %s are not tracked: not supported"
+                % (f, line, trait.capitalize(), typ, name, typ))
+
 
 def flatten(key, fntab, stack, memo):
     if key in memo:
@@ -1350,6 +1415,8 @@ def crate_scan(repo):
             continue
         for fn in fns:
             bodies.setdefault((fn.typ, fn.name.split(":")[-1]), []).append((f, fn.body, fn.params))
+            if ":" in fn.name:
+                CRATE.setdefault("trait_impls", []).append((fn.typ, fn.name.split(":")[0], fn.name.split(":")[-1], f, fn.line))
         for name, body, line in parse_free_fns(text, f):
             bodies.setdefault((None, name), []).append((f, body, ""))
             CRATE["free"].add(name)
@@ -1613,6 +1680,15 @@ def main(argv):
     validate_guard_fns(fntab)
     check_new_remote(texts)
     check_untracked(texts)
+    check_implicit_impls()
+    # the guard-lifetime rules implemented here are the edition-2021 rules (temporaries of an `if let` / `match`
+    # scrutinee live to the end of the statement, tail-expression temporaries to the end of the block's statement)
+    cargo = os.path.join(repo, "Cargo.toml")
+    if os.path.exists(cargo):
+        em = re.search(r'(?m)^edition\s*=\s*"(\d+)"', open(cargo).read())
+        if not em or em.group(1) != "2021":
+            die("Cargo.toml: edition %s; the translator implements the temporary-lifetime rules of edition 2021 only"
+                % (em.group(1) if em else "missing"))
     # the drop glue of a ProgressBar handle (field order of the struct); every field: the Drop impl runs only
     # if this handle held the last reference
     m = re.search(r"pub struct ProgressBar\s*\{([^}]*)\}", texts["progress_bar.rs"])
@@ -1751,8 +1827,10 @@ def main(argv):
     lines.append("].")
     lines.append("")
     lines.append("(** source text (comments stripped, white space normalised) of the two bodies that the one-line model")
-    lines.append("    Locks.tick_inner transcribes: ProgressBar::tick_inner and BarState::tick *)")
-    for nm, key in (("src_tick_inner", ("ProgressBar", "tick_inner")), ("src_barstate_tick", ("BarState", "tick"))):
+    lines.append("    Locks.tick_inner transcribes (ProgressBar::tick_inner, BarState::tick) and of the loop that the ticker")
+    lines.append("    automaton of Locks.v part 3 transcribes (TickerControl::run) *)")
+    for nm, key in (("src_tick_inner", ("ProgressBar", "tick_inner")), ("src_barstate_tick", ("BarState", "tick")),
+                    ("src_ticker_run", ("TickerControl", "run"))):
         txt = re.sub(r"\s+", " ", fntab[key].body).strip()
         if '"' in txt:
             die("%s::%s: body contains a string literal, cannot be pinned" % key)
